@@ -521,8 +521,10 @@ def run_task(spec):
 ASSUME_BLOCKS = [
     "serializers.h/header.h are compiled at -O0 behind a stub yardl.h (harness/cc/stubinc/yardl.h: chrono Date/Time/DateTime, empty NDArray "
     "templates); nothing in the stub is executed",
-    "block streams: block lengths are single-byte varints <= 4, at most 4 items remain, uint32 items are varints of at most `maxib` bytes "
-    "(bounds); the reference block parser (parts/cc_blocks.py ref_parse) is the specification",
+    "block streams: block lengths are single-byte varints <= max_items, at most max_items items remain, uint32 items are varints of at most "
+    "`uint32_item_bytes` bytes (per-task bounds, see bounds.tasks); reader_state 'boundary' = the reader sits at a refill boundary "
+    "(buffer_ptr_ == buffer_end_ptr_: fresh or exactly drained), 'any' = the arbitrary valid state of C01; the reference block parser "
+    "(parts/cc_blocks.py ref_parse) is the specification",
     "destination std::vector: size/capacity/data/operator[] are executed from the IR on a (begin,end,cap) triple over a 4-element storage "
     "object with symbolic prior size <= capacity, 1 <= capacity <= 4 and symbolic prior contents; resize is a stub; element accesses "
     "outside [begin,end) are reported",
@@ -571,19 +573,30 @@ def blocks_part(prop, tier, seed):
     pth, cmd = _ir("blocks.cc", "-O0")
     budget = 800 if thorough else 80
     specs = []
-    Ns = [8, 16] if thorough else [8]
-    for N in Ns:
-        base = dict(kind='blocks', N=N, ir=pth, seed=seed, budget_s=budget, samples=(12 if thorough else 2), stride=(1 if thorough else 3),
-                    maxib=(3 if thorough else 2))
-        specs.append(dict(base, op='ReadBlock_u32'))
-        for cap in range(1, MAX_ITEMS + 1):
-            specs.append(dict(base, op='RBIV_u8', cap=cap))
-            specs.append(dict(base, op='RBIV_u32', cap=cap))
-    specs.sort(key=lambda s: (-s['N'], 0 if s['op'] == 'RBIV_u32' else 1, -(s.get('cap') or 0)))
+    base = dict(kind='blocks', N=8, ir=pth, seed=seed, budget_s=budget, samples=(10 if thorough else 2), stride=(1 if thorough else 3),
+                xcheck=(4 if thorough else 0))
+
+    def add(op, n, state, maxib, caps, N=8):
+        for cap in caps:
+            specs.append(dict(base, op=op, max_items=n, state=state, maxib=maxib, cap=cap, N=N))
+    if thorough:
+        add('ReadBlock_u32', 4, 'any', 3, [None])
+        add('RBIV_u8', 4, 'any', 1, [1, 2, 3, 4])
+        add('RBIV_u8', 4, 'boundary', 1, [1, 2, 3, 4], N=16)
+        add('RBIV_u32', 4, 'boundary', 1, [1, 2, 3, 4])
+        add('RBIV_u32', 3, 'any', 2, [1, 2, 3])
+        add('RBIV_u32', 2, 'any', 3, [1, 2])
+    else:
+        add('ReadBlock_u32', 4, 'any', 2, [None])
+        add('RBIV_u8', 4, 'boundary', 1, [1, 2, 3, 4])
+        add('RBIV_u8', 2, 'any', 1, [1, 2])
+        add('RBIV_u32', 3, 'boundary', 1, [1, 2, 3])
+        add('RBIV_u32', 2, 'any', 1, [1, 2])
+    specs.sort(key=lambda s: -(s['max_items'] * 10 + (s.get('cap') or 0) + (5 if s['state'] == 'any' else 0) + 10 * s['maxib']))
     results = K._pool_run(specs)
-    part["bounds"] = {"buffer_size_N": Ns, "items": "<= 4", "block lengths": "1..4 (symbolic)", "capacity": "1..4 (one task each)",
-                      "prior size": "0..capacity (symbolic)", "uint32 item bytes": "<= %d" % (3 if thorough else 2), "clang": [cmd],
-                      "tasks": len(specs)}
+    part["bounds"] = {"tasks": [dict(op=s['op'], N=s['N'], max_items=s['max_items'], capacity=s.get('cap') or 'n/a', reader_state=s['state'],
+                                     uint32_item_bytes=s['maxib']) for s in specs],
+                      "block lengths": "1..max_items (symbolic)", "prior size": "0..capacity (symbolic)", "clang": [cmd]}
     part["assumptions"] = K.ASSUME_COMMON + K.ASSUME_READER + ASSUME_BLOCKS
     return _finish(part, K, prop, results, t0)
 
@@ -597,7 +610,7 @@ def header_part(prop, tier, seed):
     pth, cmd = _ir("blocks.cc", "-O0")
     Ns = [8, 16] if thorough else [8]
     specs = [dict(kind='header', op='ReadHeader', N=N, ir=pth, seed=seed, budget_s=(800 if thorough else 80), samples=(16 if thorough else 4),
-                  stride=1, smax=(6 if thorough else 4)) for N in Ns]
+                  stride=1, smax=(6 if thorough else 4), xcheck=(8 if thorough else 0)) for N in Ns]
     results = K._pool_run(specs)
     part["bounds"] = {"buffer_size_N": Ns, "schema bytes": "<= %d" % (6 if thorough else 4), "clang": [cmd]}
     part["assumptions"] = K.ASSUME_COMMON + K.ASSUME_READER + ASSUME_HEADER
